@@ -130,6 +130,11 @@ func scReload(seq string, mode string) func(x *vs.Exec) {
 				return cw.ReplyOK
 			}
 		}
+		if mode == "vsquat" {
+			// another program holds the visitors' bind ports: visitors cannot start until it goes away
+			w.H.Squat("tcp", 6000, true)
+			w.H.Squat("tcp", 6001, true)
+		}
 		vs.Block("await-login", func() bool { return w.Srv.LiveCount() == 1 || x.Now() > 30*time.Second })
 		if w.Srv.LiveCount() != 1 {
 			vs.Fail("client did not log in")
@@ -144,7 +149,8 @@ func scReload(seq string, mode string) func(x *vs.Exec) {
 				vs.Fail("reload %d: %v", i, err)
 			}
 			if mode == "late" && i == 0 {
-				// the answers to the first registrations arrive only after the next reload has been applied
+				// the registrations are sent and their answers arrive only after the next reload has been applied
+				time.Sleep(2 * time.Second)
 				continue
 			}
 			if mode == "late" && i == 1 {
@@ -161,6 +167,9 @@ func scReload(seq string, mode string) func(x *vs.Exec) {
 				wantV = "[6000]"
 			} else if len(set) > 2 && set[2] == '2' {
 				wantV = "[6001]"
+			}
+			if mode == "vsquat" {
+				wantV = "[]"
 			}
 			if got := visitorPorts(w); got != wantV {
 				vs.Fail("after reload %d (%s -> %s) visitor listeners are %s, configured %s", i, prev, set, got, wantV)
@@ -193,6 +202,17 @@ func scReload(seq string, mode string) func(x *vs.Exec) {
 				}
 			}
 			prev = set
+		}
+		if mode == "vsquat" {
+			// the other program goes away: exactly the visitors of the last configuration come up
+			w.H.Squat("tcp", 6000, false)
+			w.H.Squat("tcp", 6001, false)
+			time.Sleep(90 * time.Second)
+			last := sets[len(sets)-1]
+			wantV := map[byte]string{'-': "[]", '1': "[6000]", '2': "[6001]"}[last[2]]
+			if got := visitorPorts(w); got != wantV {
+				vs.Fail("visitor bind ports were busy during %s; 90 s after they became free the visitor listeners are %s, the last configuration says %s", seq, got, wantV)
+			}
 		}
 		vs.SetInterest(false)
 		// after Stop: no further registration
@@ -365,6 +385,11 @@ func main() {
 			for _, s2 := range []string{"11-", "21-", "-1-", "22-", "---"} {
 				names = append(names, "reload/"+s1+">"+s2+"/"+m)
 			}
+		}
+	}
+	for _, s1 := range []string{"--1", "1-1", "--2"} {
+		for _, s2 := range []string{"---", "--2", "--1", "1--"} {
+			names = append(names, "reload/"+s1+">"+s2+"/vsquat")
 		}
 	}
 	var hrec func(p string, d int)
